@@ -12,6 +12,7 @@ mod c05;
 mod c06;
 mod c07;
 mod c08;
+mod c09;
 mod st;
 
 use common::*;
@@ -39,6 +40,7 @@ fn main() {
     "C06" => c06::run(&ctx),
     "C07" => c07::run(&ctx),
     "C08" => c08::run(&ctx),
+    "C09" => c09::run(&ctx),
     _ => {
       eprintln!("unknown property {}", prop);
       std::process::exit(2);
